@@ -32,6 +32,7 @@ import (
 	"sync"
 	"sync/atomic"
 	"syscall"
+	"testing/iotest"
 	"time"
 
 	"github.com/fxamacker/cbor/v2"
@@ -970,10 +971,57 @@ func (h *H) checkHTTPLoaded(site string, w Witness, v any, sc *schema, want uint
 		return "wrong-format"
 	}
 	if k, where := semDiff(v, tg, sc); k != "" {
-		h.c.Violate("http-roundtrip", site, "wrong-value("+k+")", fmt.Sprintf("%s: loaded value differs at %s: dumped %s, loaded %s", w.Path, where, w.ValueJSON, valueJSON(tg)), w)
+		disc := "wrong-value(" + k + ")"
+		if strings.HasSuffix(site, "]") {
+			// a body that is cut short differs at an arbitrary place: one signature per delivery class
+			disc = "wrong-value"
+		}
+		h.c.Violate("http-roundtrip", site, disc, fmt.Sprintf("%s: loaded value differs at %s (%s): dumped %s, loaded %s", w.Path, where, k, w.ValueJSON, valueJSON(tg)), w)
 		return "wrong-value"
 	}
 	return "ok"
+}
+
+// ---- delivery of HTTP bodies
+//
+// The body of a request/response arrives through an io.Reader: in one piece,
+// one byte per Read, half of the asked amount per Read, or with the last data
+// returned together with io.EOF; and its length is either announced
+// (ContentLength = true length) or not (-1, chunked). All are legal readers.
+
+type delivery struct {
+	name, class string // class "" = plain; it goes into the site of a violation
+	wrap        func(b []byte) io.Reader
+}
+
+var deliveries = []delivery{
+	{"one piece", "", func(b []byte) io.Reader { return bytes.NewReader(b) }},
+	{"one byte per Read", "[body in several reads]", func(b []byte) io.Reader { return iotest.OneByteReader(bytes.NewReader(b)) }},
+	{"half per Read", "[body in several reads]", func(b []byte) io.Reader { return iotest.HalfReader(bytes.NewReader(b)) }},
+	{"last data with io.EOF", "[last data with EOF]", func(b []byte) io.Reader { return iotest.DataErrReader(bytes.NewReader(b)) }},
+}
+
+// loadDeliveries runs one HTTP load for every delivery x {length announced, -1}.
+// set installs body and length in the request/response; load calls the HTTP load function.
+func (h *H) loadDeliveries(site string, w Witness, pv any, sc *schema, want uint8, body []byte,
+	set func(rc io.ReadCloser, length int64), load func(t any) (uint8, error), t *tally) string {
+	result := "ok"
+	base := w.Path
+	for _, d := range deliveries {
+		for _, announced := range []bool{true, false} {
+			length, ltxt := int64(-1), "ContentLength -1"
+			if announced {
+				length, ltxt = int64(len(body)), fmt.Sprintf("ContentLength %d", len(body))
+			}
+			set(io.NopCloser(d.wrap(body)), length)
+			w.Path = fmt.Sprintf("%s [body of %d bytes delivered %s, %s]", base, len(body), d.name, ltxt)
+			t.evals++
+			if res := h.checkHTTPLoaded(site+d.class, w, pv, sc, want, load, t); res != "ok" && result == "ok" {
+				result = res
+			}
+		}
+	}
+	return result
 }
 
 func newReq() *http.Request {
@@ -1016,7 +1064,9 @@ func (h *H) httpValue(r ValRef, f fm, t *tally) {
 		ct := req.Header.Get("Content-Type")
 		res := "bad-content-type"
 		if cf, st := h.checkContentType(site, w, ct, body, pv, sc); st != "bad" {
-			res = h.checkHTTPLoaded(site+"→LoadFromHTTPRequest", w, pv, sc, cf, func(tg any) (uint8, error) { return dsd.LoadFromHTTPRequest(req, tg) }, t)
+			res = h.loadDeliveries(site+"→LoadFromHTTPRequest", w, pv, sc, cf, body,
+				func(rc io.ReadCloser, n int64) { req.Body, req.ContentLength = rc, n },
+				func(tg any) (uint8, error) { return dsd.LoadFromHTTPRequest(req, tg) }, t)
 			if res == "ok" && st == "differs" {
 				h.ctDiffers(site, w, ct, body)
 				res = "bad-content-type"
@@ -1087,7 +1137,9 @@ func (h *H) response(w Witness, req *http.Request, must bool, r ValRef, pv any, 
 	if st == "bad" {
 		return "bad-content-type"
 	}
-	res := h.checkHTTPLoaded("DumpToHTTPResponse→LoadFromHTTPResponse", w, pv, sc, cf, func(tg any) (uint8, error) { return dsd.LoadFromHTTPResponse(resp, tg) }, t)
+	res := h.loadDeliveries("DumpToHTTPResponse→LoadFromHTTPResponse", w, pv, sc, cf, body,
+		func(rc io.ReadCloser, n int64) { resp.Body, resp.ContentLength = rc, n },
+		func(tg any) (uint8, error) { return dsd.LoadFromHTTPResponse(resp, tg) }, t)
 	if res == "ok" && st == "differs" {
 		h.ctDiffers("DumpToHTTPResponse", w, ct, body)
 		return "bad-content-type"
@@ -1373,7 +1425,9 @@ func (h *H) ctypeCase(hdr string, f fm, r ValRef, t *tally) {
 	req.Header.Set("Content-Type", hdr)
 	req.Body = io.NopCloser(bytes.NewReader(body))
 	if must {
-		res := h.checkHTTPLoaded("LoadFromHTTPRequest(Content-Type)", w, v, sc, f.id, func(tg any) (uint8, error) { return dsd.LoadFromHTTPRequest(req, tg) }, t)
+		res := h.loadDeliveries("LoadFromHTTPRequest(Content-Type)", w, v, sc, f.id, body,
+			func(rc io.ReadCloser, n int64) { req.Body, req.ContentLength = rc, n },
+			func(tg any) (uint8, error) { return dsd.LoadFromHTTPRequest(req, tg) }, t)
 		t.out["content-type:names-body-format:"+res]++
 		return
 	}
@@ -1608,6 +1662,7 @@ func main() {
 			"(3) totality: every byte string of length <=3 (thorough: also every 4-byte string starting with a known id), every truncation and single-byte substitution of valid dumps, every gzip-wrapped inner string of length <=2, x load targets {struct, gencode struct, interface}. " +
 			"Byte slices (top-level RAW values and []byte fields) are additionally enumerated in the capacity shapes {cap==len, built by append with spare capacity, window into a larger buffer with live bytes around it}; every dump gets a fresh copy, the loaded value is compared with a pristine copy taken before the dump, the argument and its whole backing array must be unchanged after every dump, and every dump is done twice (equal blobs, earlier blob unchanged). " +
 			"Also: strings with two and three U+0085 (adjacent and apart) and U+0085 in *string, []string, map key+value and nested-struct fields (so that pairs put it into two fields); large repetitive values (4 KiB, 64 KiB; thorough 1 MiB of one byte, a long string of one repeated pair, a long list of equal strings) at top level and in one struct field, through every format and every dump path incl. GZIP/AUTO compression; header parameters with token values, quoted-strings containing '/', ',', ';' and quoted-pairs, and accept-ext behind q. " +
+			"Every HTTP load (request, response, Content-Type family) is repeated for 4 body deliveries {one piece, one byte per Read, half per Read, last data together with io.EOF} x {ContentLength = true length, -1}. " +
 			"non-trivial = cases with a non-zero value whose dump was produced and loaded back, header strings with more than a bare lower-case type, byte strings whose first byte is a known format/compression id")
 		c.Assume("equality of dumped and loaded value is semantic: nil and empty slices/maps are one value (GenCode, MsgPack and JSON-null have a single representation); pointer nil-ness, lengths and all contents must match")
 		c.Assume("dump-is-repeatable compares the two blobs byte for byte unless the value holds a map with more than one key (MsgPack and CBOR do not sort map keys); then the second blob must load to the value")
